@@ -240,6 +240,20 @@ def r2_type_gate(ctx) -> None:
         (list[_typing.Union[str, int]], [(["a", 1], True), (["a", 1.5], False)]),
         (_typing.Sequence[str], [(["a"], False), ("a", False)]),
     ]
+    # admission is by class *membership*: a value of a subclass (a cased string is a Sigma string) is admitted wherever its
+    # base class is — in every shape of annotation
+    class _SubStr(str):
+        pass
+
+    class _SubInt(int):
+        pass
+    hints += [
+        (str, [(_SubStr("a"), True)]),
+        (_typing.Union[str, int], [(_SubStr("a"), True), (_SubInt(1), True)]),
+        (str | int, [(_SubStr("a"), True), (_SubInt(1), True)]),
+        (list[str], [([_SubStr("a"), "b"], True)]),
+        (list[_typing.Union[str, int]], [([_SubStr("a"), _SubInt(1)], True)]),
+    ]
     wrong = []
     ncases = 0
     for hint, samples in hints:
